@@ -65,11 +65,11 @@ class Ctx(object):
     def tlc_phase(self, name, module, consts, invariants=(), properties=(), replay_cases=True,
                   translate=("replay", "steps_for"), judge_fn=("replay", "judge"), variant="opt",
                   require_actions=(), timeout=1500, simulate=None, depth=None, worker_env=None,
-                  max_cases=None, **kw):
+                  max_cases=None, seed_tlc=False, **kw):
         wd = os.path.join(self.workdir, name)
         r = tlc.run_tlc(module, consts, wd, invariants=invariants, properties=properties,
                         timeout=timeout, simulate=simulate, depth=depth,
-                        seed=(self.seed if simulate else None), **kw)
+                        seed=(self.seed if (simulate or seed_tlc) else None), **kw)
         ph = {"phase": name, "module": module, "states": r.states, "distinct": r.distinct, "cases": r.ncases,
               "tlc_wall_s": round(r.wall, 1), "invariants": list(invariants), "properties": list(properties)}
         self.phases.append(ph)
